@@ -91,9 +91,12 @@ def lemma(name, prop, hyps, goal, detail=''):
     return Obligation('%s/lemma/%s' % (prop, name), hyps, goal, meta={'detail': detail, 'function': 'lemma:' + name})
 
 
-def structural(name, prop, ok, detail=''):
-    """Obligation on the parse tree itself (decided without a solver but reported uniformly)."""
-    return Obligation('%s/%s' % (prop, name), [], z3.BoolVal(bool(ok)), meta={'detail': detail})
+def structural(name, prop, ok, detail='', standin=None):
+    """Obligation on the parse tree itself (decided without a solver but reported uniformly).  It PINS a statement: when it fails the code
+    has changed, which is a violation only if the behaviour changed.  `standin` names the bounded native stand-in (a BOUNDED check with the
+    same tag in its 'covers' list) that exercises the pinned code: if that stand-in ran and found no failing input, the failed pin is
+    reported as UNDECIDED (a behaviour-preserving rewrite), not as a violation."""
+    return Obligation('%s/%s' % (prop, name), [], z3.BoolVal(bool(ok)), meta={'detail': detail, 'pin': True, 'standin': standin})
 
 
 # ---------------------------------------------------------------------------------------------- coherence (derived state)
@@ -132,12 +135,15 @@ def class_setters(tree, file, cls):
     return out
 
 
-def rebuilt_after_writes(label, attrs, recv="self", name=None):
+def rebuilt_after_writes(label, attrs, recv="self", name=None, strict=False):
     """Ensures-clause: the derived state is rebuilt from the FINAL parameter values - the last logged call `label` (the builder, or
     a notification) has receiver `recv` and none of the attributes `attrs` of self was written after it."""
     def clause(P):
         tag = name or ('coherence.' + label)
         evs = [e for e in P.st.log if e.label == label or e.label.split('.')[-1] == label]
+        if not evs and strict:
+            # constructors: there is no earlier consistent state to fall back on - the builder must have run
+            return [(tag, z3.BoolVal(False))]
         if not evs:
             # no rebuild on this path: coherent iff nothing the derived state depends on was changed since entry (the invariant held on entry)
             me = P.value("self")
@@ -220,3 +226,24 @@ def setter_contracts(reg, PROP, tree, file, cls, builder, label=None, recv="self
     return depends, n
 
 
+
+
+def constructor_contract(reg, PROP, tree, file, cls, builder, label=None, recv="self", extra_depends=(), externals=None, sorts=None, raises_any=("ValueError",)):
+    """The constructor establishes the coherence invariant: on every normal exit the builder (or notification) `label` has run AFTER the
+    last write to any attribute it depends on - including the placeholder values a constructor assigns before it calls the setters."""
+    tree.prefer_stem = tree.abspath(file).rsplit('.', 1)[0]
+    depends = (method_reads(tree, file, cls, builder) if builder else set()) | set(extra_depends)
+    label = label or builder
+    ext = dict(externals or {})
+    if builder:
+        for nm in tree.mro(cls):
+            if tree.lookup_method(nm, builder)[1] is not None:
+                ext['%s.%s' % (nm, builder)] = logged_self(builder)
+    ci, fn = tree.lookup_method(cls, '__init__')
+    if fn is None:
+        return 0
+    reg.contract(ci.file, "%s.__init__" % ci.name, PROP, name='ctor:%s:%s' % (cls, label), self_cls=cls, sorts=dict(sorts or {}), externals=ext,
+        raises_any=list(raises_any),
+        ensures=[("established", rebuilt_after_writes(label, sorted(depends), recv=recv, name='coherence.__init__.%s' % label, strict=True))],
+        note='constructor of %s must leave %s consistent with %s' % (cls, label, sorted(depends)))
+    return 1
